@@ -419,6 +419,7 @@ def _is_qualified_self(key, lt):
 
 def _suffix(key, suffix):
     key = strip_generics(key)
+    suffix = strip_generics(suffix)
     return key == suffix or key.endswith("::" + suffix) or key.endswith(suffix)
 
 
